@@ -446,7 +446,11 @@ class Prop(object):
                 verdict = self._verdict(wrong, subj, set_issuer(pk, rkeys.keyid(oraw)))
                 self._judge(r, 'different', verdict, dict(tags, grp='other-algorithm-key'), dict(case), '%s verified with unrelated key %s (issuer rewritten)' % (label0, other))
         # primary <-> subkey relabelling: host with a signing subkey of the same algorithm family where possible
-        host, hraw = K.pgpy_cert(signer, uid=S.SIGNER_UID, subkeys=[('ed25519c', {KeyFlags.Sign}), ('rsa2048b', {KeyFlags.Sign})])
+        # (the certificate also carries encryption-only subkeys - ECDH, RSA - : a signature relabelled as issued by one of them must not verify)
+        enc = {KeyFlags.EncryptCommunications, KeyFlags.EncryptStorage}
+        host, hraw = K.pgpy_cert(signer, uid=S.SIGNER_UID, subkeys=[('ed25519c', {KeyFlags.Sign}), ('rsa2048b', {KeyFlags.Sign}), ('cv25519a', enc),
+                                                                    ('ecdh_p256a', enc), ('rsa1024a', enc)])
+        signing_subkeys = 2
         hp = host.pubkey
         doc = b'relabel me'
         from pgpy.constants import HashAlgorithm
@@ -457,7 +461,7 @@ class Prop(object):
             verdict = self._verdict(hp, doc, set_issuer(ppk, bytes.fromhex(skid)))
             self._judge(r, 'different', verdict, {'scn_kind': 'doc', 'mut': 'key', 'grp': 'primary-sig-relabelled-as-subkey'}, dict(case),
                         'signature by primary %s relabelled as issued by subkey %s' % (signer, skid))
-        for skid, sk in host.subkeys.items():
+        for skid, sk in list(host.subkeys.items())[:signing_subkeys]:
             ssig = sk.sign(doc, hash=HashAlgorithm.SHA256, created=K.dt(S.SIG_T), include_issuer_fingerprint=False)
             spk = bytes(ssig.__bytearray__())
             v = self._verdict(hp, doc, spk)
